@@ -111,6 +111,14 @@ class RealWorld:
         # the agents, so the set of encodings in the simulation is the same) and get their final encodings through
         # the public `encoding` setter once the property module has built its components (`finish`): a component
         # reads an agent's current encoding, not one it saw at construction.  The state is loaded after that.
+        if desc.get("bad_table"):
+            # a history: an assignment to `overlapping` that the setter REJECTS (a table with one malformed row), made
+            # on the live grid and caught by the caller; the table in force is the one from before
+            try:
+                self.grid.overlapping = bad_table(ov)
+                raise RuntimeError("harness: the malformed overlap table was accepted")
+            except (AssertionError, TypeError, ValueError, KeyError, AttributeError):
+                pass
         # another history (`late`: k): the last k agents (plain ones: they neither move, attack nor observe, and their
         # encodings occur among the others) are put into the agents dictionary - the one object the simulation and all
         # its components share - only after the components were built: a component sees the agents that are in the
@@ -228,6 +236,16 @@ def fragile_ties(rmax=40):
                                     out.append((dr, dc, r, t))
         _FRAGILE[rmax] = sorted(set(out))
     return _FRAGILE[rmax]
+
+
+def bad_table(ov):
+    """a table the `overlapping` setter rejects because of its LAST row (a list where a set belongs); the rows before it
+    are well-formed and say something else than `ov` (everything may overlap with everything)"""
+    encs = sorted(ov) if ov else [1]
+    everything = set(encs) | {max(encs) + 1}
+    t = {e: set(everything) for e in encs[:-1]}
+    t[encs[-1]] = [encs[0]]
+    return t
 
 
 def maybe_late(rng, desc, p=0.08):
@@ -351,6 +369,8 @@ def gen_world(rng, max_side=5, max_agents=7, kinds=None, dead_prob=0.15, big=Non
     desc = {"rows": rows, "cols": cols, "overlap": overlap, "agents": agents, "state": state}
     if rng.random() < 0.2:
         desc["overlap0"] = gen_overlap(rng, encs)       # the table the grid was first built with (see RealWorld)
+    if rng.random() < 0.15:
+        desc["bad_table"] = True                        # a rejected assignment on the live grid (see RealWorld)
     return desc
 
 
